@@ -36,12 +36,26 @@ pub fn run(env: &Env, run: &Run) -> (Stats, Coverage) {
         for l in [vec![x], vec![0x61, x], vec![x, 0x61], vec![0xFF21, x], vec![x, 0xFF21], vec![0x65E5, x], vec![0x10400, x, 0xFF71]] {
             visit(env, &from_cps(&l), st);
         }
+        for a in alias_chars(c) {
+            visit(env, &from_cps(&[x, a as u32]), st);
+            visit(env, &from_cps(&[a as u32, x]), st);
+        }
     }));
+
+    // structural families: pumped runs a^k b / b a^k / a^k b a (k around 8, 16, 32, 64 and, for a
+    // few symbols, 128..1025) and every ASCII character at every offset of 7..33-byte ASCII strings
+    let fam = {
+        let mut v = pumped(&sigma, &PUMP_LENGTHS);
+        v.extend(pumped(&sigma[..sigma.len().min(6)], &PUMP_LENGTHS_LONG));
+        v.extend(ascii_blocks());
+        v
+    };
+    st.merge(run_family(&fam, |s, st| visit(env, s, st)));
     let mapped = (0..0x110000u32).filter(|c| env.ud16.width_map(*c).is_some()).count();
     st.sample(json!({"input": ["U+65E5", "U+FF21", "U+FB01"], "expected": "U+65E5 A U+FB01 (only the fullwidth letter is replaced)"}));
     st.sample(json!({"input": ["U+3000"], "expected": "U+0020 (<wide> 0020)"}));
     let cov = Coverage {
-        rule: format!("every string of length <= {} over 13 symbols + every scalar value in 7 templates through width_mapping_rule of both username profiles; oracle = per-character replacement by the first code point of the <wide>/<narrow> decomposition in the profile crate's UnicodeData, read by an independent reader; idempotence on the output; non-trivial = first mapped character is not at index 0 (copy-on-first-change path with a non-empty prefix)", n),
+        rule: format!("every string of length <= {} over 13 symbols + pumped runs and ASCII block strings + every scalar value in 7 templates and next to each of its bit-16..20 aliases through width_mapping_rule of both username profiles; oracle = per-character replacement by the first code point of the <wide>/<narrow> decomposition in the profile crate's UnicodeData, read by an independent reader; idempotence on the output; non-trivial = first mapped character is not at index 0 (copy-on-first-change path with a non-empty prefix)", n),
         alphabet: json!(sigma.iter().map(|c| format!("U+{:04X}", *c as u32)).collect::<Vec<_>>()),
         bound_completed: format!("length <= {} ({} strings) x 2 profiles; sweep 1,112,064 x 7 templates x 2", n, tree_size(sigma.len(), n)),
         exhaustive: false,
